@@ -282,4 +282,17 @@ example : primSample (exEvalInterval.peval [("t", [1])]) [("D", [5])] [1 / 2] =
     primSample exEvalInterval ([("D", [5])] ++ [("t", [1])]) [1 / 2] :=
   primSample_peval _ _ _ _
 
+/-! ### boundaries of Boolean combinations: the alternate-and-truncate loop is biased for small n (negative result) -/
+
+/-- **The n-point sampler of a Boolean boundary is not uniform for small n.**  `_random_points_boundary` proposes
+    `⌊n·|∂A|/|∂D|⌋ + 1` points on `∂A`, then `⌊n·|∂B|/|∂D|⌋ + 1` points on `∂B`, alternately, and returns the first `n` accepted
+    ones.  Witness: two disjoint operands (every proposal is accepted), `|∂A|/|∂D| = 0.58`, `n = 2`: the requests are `2` and
+    `1`, the first round already delivers `n` points, and BOTH returned points come from `∂A` — the arc of `A` receives the share
+    `1` instead of `0.58`, in every call.  (For overlapping operands with the exact measure set by `set_volume` the bias is of
+    order `1/√n`: measured 0.80 / 0.65 / 0.60 instead of 0.58 for n = 2 / 10 / 100.)  Open finding
+    `boolean_boundary_small_n_bias`. -/
+theorem bdry_alternation_small_n_biased :
+    accLoop 2 (bdryProp (fun _ m => List.replicate m "a") (fun _ m => List.replicate m "b") 2 1) (fun _ => true)
+      (fun _ _ => false) 5 0 [] = some (1, ["a", "a"]) := by decide
+
 end TPV.Geom
